@@ -26,6 +26,10 @@ pub struct GenCfg {
     pub owners: bool,
     pub symlinks: bool,
     pub max_file: usize,
+    /// Pairs of identical files larger than 1 MiB (blocks above that size exist only then).
+    pub big_twins: bool,
+    /// Directory entries whose names are not valid UTF-8.
+    pub raw_names: bool,
 }
 
 impl GenCfg {
@@ -47,6 +51,8 @@ impl GenCfg {
             owners: r.chance(1, 2),
             symlinks: r.chance(3, 4),
             max_file: 16 * 1024,
+            big_twins: r.chance(1, 16),
+            raw_names: r.chance(1, 6),
         }
     }
 }
@@ -217,13 +223,13 @@ impl Gen {
         }
     }
 
-    pub fn file_node(&mut self, cfg: &GenCfg, dup_of: Option<(usize, u64)>) -> TNode {
-        let (size, cseed) = match dup_of {
+    pub fn file_node(&mut self, cfg: &GenCfg, dup_of: Option<(usize, u64, usize)>) -> TNode {
+        let (size, cseed, period) = match dup_of {
             Some(d) => d,
-            None => (self.size(cfg), self.cseed()),
+            None => (self.size(cfg), self.cseed(), 0),
         };
         TNode {
-            kind: NodeKind::File { size, cseed },
+            kind: NodeKind::File { size, cseed, period },
             meta: self.meta(cfg, false),
         }
     }
@@ -261,11 +267,11 @@ impl Gen {
             .filter(|d| Self::depth(d) < cfg.max_depth)
             .collect();
         let non_root: Vec<&String> = m.nodes.keys().filter(|k| k.as_str() != "/").collect();
-        let files: Vec<(&String, usize, u64)> = m
+        let files: Vec<(&String, usize, u64, usize)> = m
             .nodes
             .iter()
             .filter_map(|(k, n)| match n.kind {
-                NodeKind::File { size, cseed } => Some((k, size, cseed)),
+                NodeKind::File { size, cseed, period } => Some((k, size, cseed, period)),
                 _ => None,
             })
             .collect();
@@ -277,7 +283,7 @@ impl Gen {
                 let name = self.name(cfg);
                 let dup = if !files.is_empty() && self.r.chance(1, 6) {
                     let f = self.r.pick(&files);
-                    Some((f.1, f.2))
+                    Some((f.1, f.2, f.3))
                 } else {
                     None
                 };
@@ -313,7 +319,7 @@ impl Gen {
             }
             // overwrite / append / truncate an existing file: new content, new mtime
             60..=71 if !files.is_empty() => {
-                let (k, size, _) = *self.r.pick(&files);
+                let (k, size, _, _) = *self.r.pick(&files);
                 let new_size = match self.r.below(4) {
                     0 => size,
                     1 => size + 1 + self.r.usize(20),
@@ -339,6 +345,7 @@ impl Gen {
                         kind: NodeKind::File {
                             size: new_size,
                             cseed: self.cseed(),
+                            period: 0,
                         },
                         meta,
                     },
@@ -396,6 +403,27 @@ impl Gen {
         let mut m = model.clone();
         let mut out = Vec::new();
         let mut tries = 0;
+        if self.r.chance(1, 8) {
+            for e in self.block_twin_scaffold(&m, cfg) {
+                if m.apply(&e) {
+                    out.push(e);
+                }
+            }
+        }
+        if cfg.raw_names && self.r.chance(1, 4) {
+            let dirs = m.dirs();
+            let dir = self.r.pick(&dirs).clone();
+            // two names that become the same string under lossy decoding, or one alone
+            let names: Vec<Vec<u8>> = match self.r.below(3) {
+                0 => vec![b"n-\xfe".to_vec(), b"n-\xff".to_vec()],
+                1 => vec![b"\xff".to_vec(), b"\xc3".to_vec(), b"a\xe9".to_vec()],
+                _ => vec![b"z\xf0\x9f".to_vec()],
+            };
+            let e = EditOp::RawNames { dir, names, kind: self.r.below(3) as u8 };
+            if m.apply(&e) {
+                out.push(e);
+            }
+        }
         while out.len() < n && tries < n * 6 + 10 {
             tries += 1;
             if let Some(e) = self.one_edit(&m, cfg) {
@@ -416,8 +444,8 @@ impl Gen {
                 // new size (fixed edge mtimes could otherwise repeat)
                 let e = match e {
                     EditOp::Put { path, mut node } => {
-                        if let (NodeKind::File { size, cseed }, Some(old)) = (&node.kind, m.nodes.get(&path)) {
-                            if let NodeKind::File { size: osize, cseed: oseed } = &old.kind {
+                        if let (NodeKind::File { size, cseed, .. }, Some(old)) = (&node.kind, m.nodes.get(&path)) {
+                            if let NodeKind::File { size: osize, cseed: oseed, .. } = &old.kind {
                                 if osize == size && oseed != cseed && old.meta.mtime == node.meta.mtime {
                                     node.meta.mtime.1 = (node.meta.mtime.1 + 1) % 1_000_000_000;
                                 }
@@ -431,6 +459,47 @@ impl Gen {
                     out.push(e);
                 }
             }
+        }
+        out
+    }
+
+    /// Files whose blocks coincide: a file whose content repeats with the block size as its
+    /// period (its blocks are all equal, and its last, shorter chunk is a prefix of them), a
+    /// file that is exactly that shorter chunk, and a file that is exactly one block. The
+    /// same content then reaches the store by different routes (whole small file in a combined
+    /// block, chunk of a large file) within one run. With `big_twins`, two identical files
+    /// somewhat above 1 MiB, which is the only way blocks above 1 MiB come to exist.
+    pub fn block_twin_scaffold(&mut self, model: &TreeModel, cfg: &GenCfg) -> Vec<EditOp> {
+        let dirs = model.dirs();
+        let mut out = Vec::new();
+        let blk = cfg.opts.max_block_size;
+        let cseed = self.cseed();
+        if cfg.big_twins && blk > (1 << 20) {
+            let size = (1 << 20) + *self.r.pick(&[1usize, 4096, 300_000]);
+            for _ in 0..2 {
+                let d = self.r.pick(&dirs).clone();
+                let name = self.name(cfg);
+                out.push(EditOp::Put { path: join_apath(&d, &name), node: self.file_node(cfg, Some((size, cseed, 0))) });
+            }
+            return out;
+        }
+        if !(2..=4096).contains(&blk) {
+            return out;
+        }
+        let t = 1 + self.r.usize(blk - 1);
+        let k = 1 + self.r.usize(3);
+        let mut sizes = vec![(k * blk + t, blk), (t, 0)];
+        if self.r.chance(1, 2) {
+            sizes.push((blk, 0));
+        }
+        if self.r.chance(1, 3) {
+            sizes.push((k * blk, blk));
+        }
+        // in any order of names
+        for (size, period) in sizes {
+            let d = self.r.pick(&dirs).clone();
+            let name = self.name(cfg);
+            out.push(EditOp::Put { path: join_apath(&d, &name), node: self.file_node(cfg, Some((size, cseed, period))) });
         }
         out
     }
